@@ -125,9 +125,17 @@ def run(tier, seed, replay=None):
     try:
         D.rank_chop = spy
         D.SVD = spy_svd
-        for i in range(n):
-            case = gen_case(rng, i)
-            if i in ENGINEERED: case = engineered_case(i)
+        # every family of the generator is represented in EVERY run, whatever the seed: families the main stream missed (or hit once) are drawn from a
+        # second stream (generation is cheap; only the kept cases are run)
+        all_cases = [engineered_case(i) if i in ENGINEERED else gen_case(rng, i) for i in range(n)]
+        have_f = {}
+        for c_ in all_cases: have_f[c_[6]] = have_f.get(c_[6], 0) + 1
+        rng_cov = random.Random(seed * 7919 + 13)
+        for i_ in range(6000):
+            if len(all_cases) >= n + 60: break
+            c_ = gen_case(rng_cov, n + i_)
+            if have_f.get(c_[6], 0) < 2: all_cases.append(c_); have_f[c_[6]] = have_f.get(c_[6], 0) + 1
+        for i, case in enumerate(all_cases):
             rec.clear(); svd_rec.clear()
             A, shape, eps, rmax, dtype, src, family = case
             if i % 4 == 3 and family != "tie":          # the contract is relative: tiny and huge absolute scales
